@@ -331,3 +331,37 @@ func installHooks(w *world) {
 }
 
 const watchdog = 60 * time.Second
+
+// gate counts completed operations; control goroutines block on it (no spinning: the
+// machine is shared with other stress jobs) until a threshold is reached or the
+// workers are done.
+type gate struct {
+	mu   sync.Mutex
+	c    *sync.Cond
+	n    int
+	done bool
+}
+
+func newGate() *gate { g := &gate{}; g.c = sync.NewCond(&g.mu); return g }
+
+func (g *gate) add() {
+	g.mu.Lock()
+	g.n++
+	g.mu.Unlock()
+	g.c.Broadcast()
+}
+
+func (g *gate) finish() {
+	g.mu.Lock()
+	g.done = true
+	g.mu.Unlock()
+	g.c.Broadcast()
+}
+
+func (g *gate) wait(n int) {
+	g.mu.Lock()
+	for g.n < n && !g.done {
+		g.c.Wait()
+	}
+	g.mu.Unlock()
+}
